@@ -13,7 +13,7 @@ def run(ctx):
         "compiled quoter's critical section is a cdef function that neither releases the GIL nor performs a Python-level "
         "call/operation while the process-global static buffer is live (the copy-out is the returned value); (IM4) every memoised function/property is a pure function of its key, so racing "
         "cache fills store equal values; (IM5) cache_configure only re-wraps the same functions; (IM8) no module-level "
-        "container is mutated; (IM1) no slot of a live URL is ever assigned. Not decided: the interleavings themselves.")
+        "container is mutated; (IM1) no slot of a live URL is ever assigned. (IM15) no cache dict is iterated in Python code (another thread's first accessor read would change its size mid-iteration). Not decided: the interleavings themselves.")
     px5(ctx)        # the writer's memory discipline (PX1-PX4, PX6/PX7) is crash-safety: C19, not claimed here
     immut.im1_im2(ctx)
     immut.im4(ctx)
@@ -23,3 +23,4 @@ def run(ctx):
     immut.im10(ctx)
     immut.im11(ctx)
     immut.im13(ctx)     # nobody writes into the cache of a URL it did not create (shared, memoised objects)
+    immut.im15(ctx)     # no Python-level iteration over a cache dict that other threads fill concurrently
